@@ -55,6 +55,7 @@ def check(model: Model, report: Report) -> None:
         "L9": "blank space is skipped wherever the grammar allows it",
         "G": "valid token shapes (grouping, negation, comparisons, selections, slices) are accepted by the interpreted parser",
         "GRID": "every sequence of filter tokens (<= 4 quick / 5 thorough, balanced parentheses) and of bracketed-selection tokens that the RFC grammar and typing rules accept is accepted by the interpreted parser",
+        "L11": "lexer state transitions and bracket / function-call bookkeeping per generic iteration (what scans what follows each lexeme, when a filter ends, how parentheses of calls and groups are matched)",
         "L10": "function arguments may start with every token a filter expression may start with",
     }.items():
         report.rule(f"R03.{k}", v)
@@ -63,6 +64,7 @@ def check(model: Model, report: Report) -> None:
     _lexrules.lexical_layer(model, report, "b-only", "R03")
     _lexstates.check_token_tables(model, report, "R03.L7", "b-only")
     _lexstates.check_blank_positions(model, report, "R03.L9", "b-only")
+    _lexstates.check_transitions(model, report, "R03.L11")
     check_argument_prefixes(model, report, "R03.L10")
     from . import _shapes
 
